@@ -12,6 +12,8 @@ structure Slot where
   fresh : Bool
   epoch : Nat
   broken : Bool      -- the iterator panicked: no further use
+  lit : LIter        -- the same iterator with the up/down state read at every call (`Policies.LIter`)
+  stch : Bool        -- the state of some host object changed since `open`: `it` (state fixed at `open`) no longer applies
 
 /-- a burst that was applied in op-line order and waits for its `settle` line -/
 structure Pending where
@@ -148,7 +150,9 @@ def St.call (s : St) (op : String) (h : Host) : St :=
 def showTable (tab : List (Nat × List Host)) : String :=
   if tab.isEmpty then "empty" else " ".intercalate (tab.map (fun e => toString e.1 ++ ":" ++ showIds e.2))
 
-def parseRk (ks tok : String) : Option (Nat × Nat) := if tok == "-" || ks == "-" then none else some (nat ks, nat tok)
+/-- `ks = nil` (Pick(nil)) and `ks = err` (GetRoutingKey fails) are queries without a usable routing key -/
+def parseRk (ks tok : String) : Option (Nat × Nat) :=
+  if tok == "-" || ks == "-" || ks == "nil" || ks == "err" then none else some (nat ks, nat tok)
 def parsePerms (perms : String) : List (List Nat) := if perms == "-" then [] else (perms.splitOn ";").map natList
 
 /-- `key=ids` → ids -/
@@ -171,6 +175,34 @@ def checkList (name : String) (conf : Nat → Bool) (model pre obs : List Host) 
       if obs.filter (fun h => !conf h.id && pre.contains h) == pre.filter (fun h => !conf h.id && obs.contains h) then none
       else some ("reordered@" ++ name)
 
+/-- op `burst`: the calls applied to the model in op-line order; the burst then waits for its `settle` line -/
+def St.burst (s : St) (calls : List String) : St × String :=
+    if calls.isEmpty then (s, "bad-op") else
+    if s.alias then (s, "bad-op") else
+    -- (w-s11f) `addhosts:<id>+<id>+...` = ONE AddHosts call among the concurrent calls: to the history it is AddHost of
+    -- each of its hosts (`cs`: one record per host); the model applies it as `TA.addHosts` (AddHost per host for a bare policy)
+    let cs : List (String × Nat) := calls.flatMap (fun w => match w.splitOn ":" with
+      | [c, i] => if c == "addhosts" then (i.splitOn "+").map (fun x => ("add", nat x)) else [(c, nat i)]
+      | _ => [("", 0)])
+    if cs.any (fun c => evOf c.1 == none || (s.host? c.2).isNone) then (s, "bad-op") else
+    let p := s.t.pol
+    let one (acc : St × Bool) (c : String × Nat) : St × Bool := match acc.1.host? c.2 with
+        | some h => let n := acc.1.call c.1 h
+                    (n, acc.2 || (n.t.hosts.map (·.id) != acc.1.t.hosts.map (·.id)))
+        | none => acc
+    let s' := calls.foldl (fun (acc : St × Bool) w => match w.splitOn ":" with
+        | [c, i] =>
+          if c == "addhosts" then
+            let hs := (i.splitOn "+").filterMap (fun x => acc.1.host? (nat x))
+            if acc.1.isTA then
+              let t' := acc.1.t.addHosts hs
+              ({ acc.1 with t := t', evs := (hs.map (fun h => (Ev.add, h))).reverse ++ acc.1.evs, inj := [] },
+               acc.2 || (t'.hosts.map (·.id) != acc.1.t.hosts.map (·.id)))
+            else hs.foldl (fun a h => one a ("add", h.id)) acc
+          else one acc (c, nat i)
+        | _ => acc) (s, false)
+    ({ s'.1 with epoch := s'.1.epoch + 1, pending := some ⟨p.l0, p.l1, p.l2, s.t.hosts, cs, s'.2⟩ }, "ok")
+
 /-- ops
   reset <rr|dc|rack> <ta 0|1> <localDC> <localRack> <shuffle> <nonlocal> <partitionerSet>
   sessks <ks>                                      (right after reset) the session keyspace is <ks>
@@ -180,7 +212,11 @@ def checkList (name : String) (conf : Nat → Bool) (model pre obs : List Host) 
   host <id> <addr> <dc> <rack> <tokens|->          define a HostInfo object (state UP)
   hostp <id> <hostid> <addr> <port> <dc> <rack> <tokens|->   the same with an explicit host id and native port
   add|remove|hup|hdown <id>                        AddHost / RemoveHost / HostUp / HostDown → snapshot of the lists
-  state <id> <1|0>                                 setState(NodeUp|NodeDown); ends the life of all iterators
+  kstab <ks> none|empty|<tok>:<ids> ...            the table the policy holds for a NetworkTopologyStrategy keyspace (observed)
+  setpart                                          SetPartitioner(OrderedPartitioner) after reset (late partitioner)
+  islocal <id>                                     IsLocal(host) [HostTier/MaxHostTier for a HostTierer]
+  addhosts <id,id,...>                             AddHosts([...]) (token-aware policy; AddHost per host otherwise: Session.init)
+  state <id> <1|0>                                 setState(NodeUp|NodeDown); live iterators go on (they read the state at every call)
   repl <ks> <tok>:<ids> ...                        install the replica table of a keyspace (hook)
   pick <ks|-> <tok|-> <limit> <perm;perm;...|->    Pick + up to <limit> iterator calls → ids offered
   ctr <n>                                          the (fallback) policy has served n picks (VerifSetPickCount)
@@ -198,7 +234,10 @@ def checkList (name : String) (conf : Nat → Bool) (model pre obs : List Host) 
                                                    `C11_rotation_balanced_partial` proves `balanced` for the model;
                                                    `excluded` (nothing done) under an excluded condition of `offer` or
                                                    the counter bound
-  burst <call>:<id> ...                            the calls run CONCURRENTLY (one goroutine each) → ok
+  burst <call>:<id> ...                            the calls run CONCURRENTLY (one goroutine each) → ok;
+                                                   `addhosts:<id>+<id>+...` = one AddHosts call among them
+  gburst <gate id> <call>:<id> ...                 the same under a forced schedule: every call is parked where it first
+                                                   reads the address of host <gate id> until all calls are in progress → ok
   settle L0=.. L1=.. L2=.. [T=..]                  SPEC-BACKED: the lists observed after the burst → ok | lost/phantom/dup/reordered -/
 def step (s : St) (ws : List String) : St × String :=
   let bump (s : St) : St := { s with epoch := s.epoch + 1 }
@@ -208,8 +247,35 @@ def step (s : St) (ws : List String) : St × String :=
     ({ init with isTA := ta == "1", t := TA.new (Pol.new kind (nat ldc) (nat lrack)) (sh == "1") (nl == "1") (ta == "1" && ps == "1") }, "ok")
   | ["sessks", ks] => (bump { s with t := { s.t with sessKs := some (nat ks) } }, "ok")
   | ["ksmeta", ks, v] =>
-    let m : Option (Option Nat) := if v == "none" then none else if v == "local" then some none else some (some (nat v))
+    -- (w-s11f) "nts:..." = NetworkTopologyStrategy: not computed by this model (placement is C10's model); to the model
+    -- the keyspace is unknown and its table arrives as `kstab` lines
+    let m : Option (Option Nat) := if v == "none" || v.startsWith "nts" then none else if v == "local" then some none else some (some (nat v))
     (bump { s with t := s.t.setMeta (nat ks) m }, "ok")
+  | "kstab" :: ks :: tab =>
+    if !s.isTA || tab.isEmpty then (s, "bad-op") else
+    let k := nat ks
+    let t' : TA :=
+      if tab == ["none"] then { s.t with replicas := s.t.replicas.filter (fun e => e.1 != k) }
+      else if tab == ["empty"] then s.t.setReplicas k []
+      else s.t.setReplicas k (parseTable s tab)
+    (bump { s with t := t', inj := if tab == ["none"] then s.inj.filter (· != k) else k :: s.inj.filter (· != k) }, "ok")
+  | ["setpart"] =>
+    (bump { s with t := if s.isTA then s.t.setPartitioner else s.t, inj := if s.isTA && !s.t.partSet then [] else s.inj }, "ok")
+  | ["islocal", id] =>
+    match s.host? (nat id) with
+    | none => (s, "bad-op")
+    | some h =>
+      let p := s.t.pol
+      (s, (if p.tier h == 0 then "1" else "0") ++
+        (if p.kind == .rack then " " ++ toString (p.tier h) ++ "/" ++ toString p.maxTier else ""))
+  | ["addhosts", idl] =>
+    let hs := (natList idl).filterMap s.host?
+    if s.alias || hs.isEmpty || hs.length != (natList idl).length then (s, "bad-op") else
+    let t' : TA := if s.isTA then s.t.addHosts hs else { s.t with pol := hs.foldl Pol.add s.t.pol }
+    let s' := bump { s with t := t', evs := (hs.map (fun h => (Ev.add, h))).reverse ++ s.evs,
+                            taint := s.taint.filter (fun i => !(natList idl).contains i),
+                            inj := if s.isTA then [] else s.inj }
+    (s', snapshot s')
   | ["kschg", ks] =>
     (bump { s with t := if s.isTA then s.t.keyspaceChanged (nat ks) else s.t, inj := s.inj.filter (· != nat ks) }, "ok")
   | ["table", ks] =>
@@ -231,21 +297,20 @@ def step (s : St) (ws : List String) : St × String :=
     | none => (s, "bad-op")
     | some sl =>
       if sl.broken then (s, "bad-op") else
-      if sl.epoch != s.epoch || s.offerExcluded sl.reps sl.fresh then (s, "excluded")
+      if sl.epoch != s.epoch || sl.stch || s.offerExcluded sl.reps sl.fresh then (s, "excluded")
       else
         let r := s.t.nextN s.up sl.it 1000
-        let sl' := { sl with it := r.2.1, broken := r.2.2.2 == some Next.panic }
+        let rl := s.t.nextLN s.up sl.lit 1000
+        let sl' := { sl with it := r.2.1, lit := rl.2.1, broken := r.2.2.2 == some Next.panic }
         ({ s with t := r.1, slots := sl' :: s.slots.filter (fun x => x.id != sl.id) }, s.specOffer)
-  | "burst" :: calls =>
-    if s.alias then (s, "bad-op") else
-    let cs : List (String × Nat) := calls.map (fun w => match w.splitOn ":" with | [c, i] => (c, nat i) | _ => ("", 0))
-    if cs.any (fun c => evOf c.1 == none || (s.host? c.2).isNone) then (s, "bad-op") else
-    let p := s.t.pol
-    let s' := cs.foldl (fun (acc : St × Bool) c => match acc.1.host? c.2 with
-        | some h => let n := acc.1.call c.1 h
-                    (n, acc.2 || (n.t.hosts.map (·.id) != acc.1.t.hosts.map (·.id)))
-        | none => acc) (s, false)
-    (bump { s'.1 with pending := some ⟨p.l0, p.l1, p.l2, s.t.hosts, cs, s'.2⟩ }, "ok")
+  | "gburst" :: gate :: calls =>
+    -- a GATED burst: the same calls, run under the schedule "every call parked at its first read of host <gate>
+    -- until all are in progress"; the model's answer does not depend on the schedule (`C11_cow_concurrent_linearizable`)
+    if (s.host? (nat gate)).isNone || calls.isEmpty || calls.any (fun w => w.splitOn ":" == ["add", gate] ||
+        w.splitOn ":" == ["remove", gate] || w.splitOn ":" == ["hup", gate] || w.splitOn ":" == ["hdown", gate] ||
+        (match w.splitOn ":" with | [c, i] => c == "addhosts" && (i.splitOn "+").contains gate | _ => false))
+    then (s, "bad-op") else s.burst calls
+  | "burst" :: calls => s.burst calls
   | "settle" :: kvs =>
     match s.pending with
     | none => (s, "bad-op")
@@ -286,7 +351,9 @@ def step (s : St) (ws : List String) : St × String :=
       (s', snapshot s')
   | ["state", id, v] =>
     if (s.host? (nat id)).isNone then (s, "bad-op") else
-    ({ s with down := if v == "1" then s.down.filter (· != nat id) else nat id :: s.down.filter (· != nat id), slots := [] }, "ok")
+    -- (w-s11f) live iterators stay alive: they read the state at every call (`LIter`)
+    ({ s with down := if v == "1" then s.down.filter (· != nat id) else nat id :: s.down.filter (· != nat id),
+              slots := s.slots.map (fun sl => { sl with stch := true }) }, "ok")
   | "repl" :: ks :: tab =>
     let t' : TA := if s.t.partSet then s.t.setReplicas (nat ks) (parseTable s tab) else s.t
     (bump { s with t := t', inj := if s.t.partSet then nat ks :: s.inj.filter (· != nat ks) else s.inj }, "ok")
@@ -328,19 +395,24 @@ def step (s : St) (ws : List String) : St × String :=
     let rk := parseRk ks tok
     let rf := s.repsOf σ rk
     let (t', it) := s.t.openIter s.up σ rk
-    ({ s with t := t', slots := ⟨nat slot, it, rf.1, rf.2, s.epoch, false⟩ :: s.slots.filter (fun x => x.id != nat slot) }, "ok")
+    let (_, lit) := s.t.openL σ rk
+    ({ s with t := t', slots := ⟨nat slot, it, rf.1, rf.2, s.epoch, false, lit, false⟩ :: s.slots.filter (fun x => x.id != nat slot) }, "ok")
   | ["next", slot, n] =>
     match s.slots.find? (fun x => x.id == nat slot) with
     | none => (s, "bad-op")
     | some sl =>
       if sl.broken then (s, "bad-op") else
+      -- the answer is the LAZY iterator's (state read now); while no state changed since `open` the eager iterator
+      -- must agree with it - offered hosts, how the calls ended, the policy's counter (cross-check of the two models)
+      let rl := s.t.nextLN s.up sl.lit (nat n)
       let r := s.t.nextN s.up sl.it (nat n)
-      let sl' := { sl with it := r.2.1, broken := r.2.2.2 == some Next.panic }
-      let s' := { s with t := r.1, slots := sl' :: s.slots.filter (fun x => x.id != sl.id) }
-      (s', match r.2.2.2 with
+      let agree := sl.stch || (r.2.2.1 == rl.2.2.1 && r.2.2.2 == rl.2.2.2 && r.1.pol.ctr == rl.1.pol.ctr)
+      let sl' := { sl with it := r.2.1, lit := rl.2.1, broken := rl.2.2.2 == some Next.panic }
+      let s' := { s with t := rl.1, slots := sl' :: s.slots.filter (fun x => x.id != sl.id) }
+      (s', if !agree then "model-mismatch:lazy-vs-eager-iterator" else match rl.2.2.2 with
         | some Next.panic => "crash:index-out-of-range"
-        | some _ => showIds r.2.2.1 ++ " end"
-        | none => showIds r.2.2.1)
+        | some _ => showIds rl.2.2.1 ++ " end"
+        | none => showIds rl.2.2.1)
   | _ => (s, "bad-op")
 
 end Driver.C11
